@@ -24,7 +24,9 @@ THEOREMS = {
     "C06": ["incremental_eq_batch", "spec_chunked", "rowsOf_append", "fitRec_append", "first_partial_is_fit", "neighbors_history",
             "post_eq_mapKV", "rec_stats_append", "rec_append_post", "fit_closed", "partialFit_closed", "fit_partialFit_append",
             "chunked_eq_batch_full", "incremental_eq_batch_full"],
-    "C07": ["fit_discards", "resetFor_congr", "sameConfig_fresh", "fit_after_history_eq_fresh"],
+    "C07": ["fit_discards", "resetFor_congr", "sameConfig_fresh", "fit_after_history_eq_fresh",
+            "fit_then_predictExp_congr", "fit_norm_congr", "npBinarize_congr", "impFit_none_congr", "impFit_neighbors_congr",
+            "impFit_lsh_congr", "impFit_tree_congr", "impFit_clusters_congr"],
     "C08": ["keys_eq_arms", "added_immediately", "removed_never_returns", "arms_unchanged_by_training", "unwrap_shape",
             "predictExp_keys", "predict_mem", "argmaxFirst_mem", "draw_length", "chunk_rows"],
     "C09": ["argmax_first", "foldMax_spec", "argmaxFirst_mem", "predict_eq_argmax", "leWith_val"],
@@ -64,7 +66,7 @@ IMPORTS = {
     "C04": ["MabModel.Props.C04"],
     "C05": ["MabModel.Props.C05", "MabModel.Props.C05b", "MabModel.Props.C05c", "MabModel.Props.C05d"],
     "C06": ["MabModel.Props.C06", "MabModel.Props.C06b"],
-    "C07": ["MabModel.Props.C07"],
+    "C07": ["MabModel.Props.C07", "MabModel.Props.C05c", "MabModel.Props.C07b"],
     "C08": ["MabModel.Props.C08"],
     "C09": ["MabModel.Props.C09"],
     "C10": ["MabModel.Props.C10", "MabModel.Props.C10b"],
